@@ -28,8 +28,9 @@ type c14Extra struct {
 	OGImages    int    `json:"og_images"`
 	OGMissing   string `json:"og_missing"` // which required property is absent ("" if none)
 	// schema.org
-	SchemaArticles int    `json:"schema_articles"`
-	SchemaTitle    string `json:"schema_title"` // headline/name of the first article that has one
+	SchemaArticles  int    `json:"schema_articles"`
+	SchemaTitle     string `json:"schema_title"`      // headline/name of the first article that has one
+	SchemaRelAuthor string `json:"schema_rel_author"` // text of the first rel=author element that has text
 	// IE
 	IETitle     string `json:"ie_title"`
 	IECopyright string `json:"ie_copyright"`
@@ -282,8 +283,16 @@ func genC14(t *rapid.T) *Case {
 			}
 			body = append(body, piece{"schema", b.String()})
 		}
-		if g.chance(30, "relauthor") {
-			body = append(body, piece{"schema", `<a rel="author" href="/who">` + g.val("screl", 2) + `</a>`})
+		if g.chance(35, "relauthor") {
+			if g.chance(50, "emptyrel") {
+				// a rel=author element without text comes first (typical: <link rel="author" href="/humans.txt">)
+				head = append(head, piece{"schema", `<link rel="author" href="/humans.txt">`})
+			}
+			ex.SchemaRelAuthor = g.val("screl", 2)
+			body = append(body, piece{"schema", `<a rel="author" href="/who">` + ex.SchemaRelAuthor + `</a>`})
+			if g.chance(30, "secondrel") {
+				body = append(body, piece{"schema", `<a rel="author" href="/who2">` + g.val("screl", 2) + `</a>`})
+			}
 		}
 	}
 
@@ -478,6 +487,9 @@ func checkC14(c *Case) (*Violation, caseInfo) {
 		}
 	} else if sc.Type != "" || sc.Title != "" {
 		return violationf("C14 schemaorg-values", "schema.org markup without article items yields Type=%q Title=%q", sc.Type, sc.Title), info
+	} else if ex.SchemaRelAuthor != "" && sc.Author != ex.SchemaRelAuthor {
+		// without an article item the author can only come from rel=author
+		return violationf("C14 schemaorg-rel-author", "rel=author element with text %q (no article item) yields Author=%q", ex.SchemaRelAuthor, sc.Author), info
 	}
 	if ie.Title != ex.IETitle || ie.Copyright != ex.IECopyright || ie.Article.PublishedTime != ex.IEDate {
 		return violationf("C14 iereader-values", "IE markup (title %q, copyright %q, date %q) yields %s", ex.IETitle, ex.IECopyright, ex.IEDate, miJSON(ie)), info
